@@ -37,15 +37,19 @@ def dec_number(text):
 class Listener(object):
   """One connection (or UDP socket) of a carbon listener."""
 
-  def __init__(self, kind):
+  def __init__(self, kind, clock=None):
     b = env.bootstrap()
     self.kind = kind
+    self.clock = clock
     P = b.protocols
     cls = {'line': 'MetricLineReceiver', 'udp': 'MetricDatagramReceiver',
            'pickle': 'MetricPickleReceiver', 'query': 'CacheManagementHandler'}[kind]
     self.proto = env.need(P, cls)()
     self.transport = StringTransport()
     self.escaped = []      # exceptions that propagated out of the protocol entry point
+    if clock is not None:
+      # timers of the protocol (TimeoutMixin: the idle timeout) run on the harness's virtual clock
+      self.proto.callLater = clock.callLater
     if kind == 'udp':
       self.proto.transport = None
     else:
